@@ -793,7 +793,7 @@ def tally(ctx, ops, model, nontrivial=lambda op, ml: True):
 def run(ctx):
     ctx.level = "proof"
     ctx.assumptions += [
-        "VoronoiDensityGrid (old and new construction, 0/1/3 Lloyd iterations, non-periodic) has NO Lean model and no theorem (C15 not applicable): it is driven and judged by grid-independent oracles on the implementation only (volumes sum to the box; located cell = cell of the nearest reported generator; every generator in its own cell; path sum; optical depth accounting; chord oracle: the path deposited in each cell equals the chord of the straight segment in that cell as cut by get_cell_index, the absorbed photon ends in the returned cell). The same chord oracle runs on CartesianDensityGrid and AMRDensityGrid",
+        "VoronoiDensityGrid (old and new construction, 0/1/3 Lloyd iterations, non-periodic) has NO Lean model and no theorem (C15 not applicable): it is driven and judged by grid-independent oracles on the implementation only (volumes sum to the box; located cell = cell of the nearest reported generator; every generator in its own cell; neighbour relation mutual with equal face areas; on large and clustered generator sets (dense clump(s) in 1-5 % of the box + sparse background, points close to the walls; ~400 generators in quick, 300-1500 in thorough, each in a fresh process with a time limit: a construction that aborts or does not finish gives no verdict and is counted in coverage.voronoi_constructions_gave_up) additionally: Old and New construction agree on cell volumes and neighbour sets for the same generators (C15's 'two constructions agree' clause stays not_applicable as a claim; here it is only one more oracle of this oracle-only stream). Tolerances: New construction 1e-9 relative on the volume sum; the Old construction cuts with its own tolerances (clean code: single cells off by up to ~4e-7 relative, sum by up to ~4e-9 on clustered sets) and is held to 1e-7 / 1e-5 per cell against New; path sum; optical depth accounting; chord oracle: the path deposited in each cell equals the chord of the straight segment in that cell as cut by get_cell_index, the absorbed photon ends in the returned cell). The same chord oracle runs on CartesianDensityGrid and AMRDensityGrid",
         "photons: every traversal is driven with freshly constructed photons AND with photons that were constructed with another direction, traced, and redirected through the public setters set_position/set_direction (the only way PhotonSource::reemit, DustScattering, DustPhotonShootJob and the task based re-emission give a photon a new direction); photon_inverse_direction proves both paths cache 1/direction",
         "Voronoi grids are otherwise not covered (C15 not applicable); Octree::get_closest_ngb and the periodic Octree distances are tied by the differential run and the brute-force oracle only (modelled, no theorem beyond octree_search_is_bruteforce, whose covering hypotheses are then assumptions)",
         "AMR traversal theorems (amr_path_sum, amr_tau_account, amr_absorbed_cell_contains_end, amr_segments_in_cells) hold for every grid of well-formed trees (depth <= 10, hence every tree reachable by refinements), every medium, every photon and every loop fuel under RayHyp: positive box sides, start in the half-open box, non-zero direction, DBL_MAX above every wall distance, and no leaf spanning the whole box on a periodic axis (such a leaf is its own neighbour: the code spins with ds = 0); NO 2:1 level balance is needed (set_ngbs stores a same-level or coarser neighbour, a coarser one is always a leaf; amr_neighbours_geometric)",
@@ -840,6 +840,13 @@ def run(ctx):
                                              group_start=GROUP.get(name),
                                              oracle_key=lambda what, grp, name=name: "%s:%s" % (stream_of(grp, name), what.split()[0]))
         tally(ctx, ops, model)
+        if name == "voronoi":
+            # large constructions run in a fresh process with a time limit; one that aborts on its own
+            # asserts or does not finish is "gave-up" (no verdict), recorded here
+            gave = sum(1 for l in impl if l.startswith("vor ") and l.endswith("gave-up"))
+            ctx.cov["voronoi_constructions_gave_up"] = ctx.cov.get("voronoi_constructions_gave_up", 0) + gave
+            if gave:
+                ctx.notes.append("voronoi stream: %d large construction(s) gave up (assert / time limit): no verdict for these generator sets" % gave)
         if impl:
             ctx.sample({"stream": name, "op": ops[0], "impl": impl[0]})
     missing = [b for b in EXPECTED_BRANCHES if b not in ctx.cov["branch_histogram"]]
